@@ -310,10 +310,10 @@ def r10d(ck, prog):
 def run(ck, progs):
     describe(ck)
     for cfg, prog in progs.items():
-        r10a(ck, prog)
-        r10b(ck, prog)
-        r10c(ck, prog)
-        r10d(ck, prog)
+        ck.attempt(r10a, ck, prog)
+        ck.attempt(r10b, ck, prog)
+        ck.attempt(r10c, ck, prog)
+        ck.attempt(r10d, ck, prog)
     return ("Effect summary of create_msa_tree on msa (which paths under msa->sequences are written while aligning); "
             "all uses of msa_seq.gaps in the functions reachable from create_msa_tree; form of every store in update_gaps "
             "and into make_seq's vectors; argument agreement, loop coverage and vector immutability of the update_gaps "
